@@ -277,7 +277,7 @@ func checkDebCase(c DebCase, r *Recorder) error {
 		}
 		r.Sample(map[string]interface{}{"members": names, "controlTar": tarNames(c.M.CtlFiles), "dataTar": tarNames(c.M.DataFiles), "control": c.M.ControlText})
 	}
-	if len(raw)%5 == 0 {
+	if len(raw)%5 == 0 && !concMode.Load() {
 		// the documented knob for the xz decoder: 0 = default dictionary limit, or a generous explicit one
 		deb.SetXZMaxDict(uint32((len(raw) % 2) * (1 << 26)))
 	}
